@@ -23,7 +23,13 @@ type c18Case struct{ entry, input string }
 
 // digestOf computes the observable result of one call: tree (with positions), SQL text, error list.
 // It is safe to call from several goroutines (no budget, no shared state).
-func digestOf(entry, input string) (uint64, string) {
+func digestOf(entry, input string) (uint64, string) { return digestWith(entry, input, false) }
+
+// digestSeq is digestOf for the single-threaded phases: the step budget is armed, so a non-terminating parse
+// ends with the budget panic instead of hanging the worker.
+func digestSeq(entry, input string) (uint64, string) { return digestWith(entry, input, true) }
+
+func digestWith(entry, input string, budget bool) (uint64, string) {
 	h := fnv.New64a()
 	if entry == "split" {
 		var res []*memefish.RawStatement
@@ -43,7 +49,7 @@ func digestOf(entry, input string) (uint64, string) {
 		}
 		return h.Sum64(), ""
 	}
-	p := ParseNoBudget(entry, input)
+	p := parseWith(entry, input, budget)
 	if p.Panic != nil {
 		fmt.Fprintf(h, "panic:%s", PanicClass(p.Panic))
 		return h.Sum64(), "panic"
@@ -230,7 +236,7 @@ func RunC18(c *Ctx) {
 	for _, i := range order {
 		cs := cases[i]
 		c.Journal(cs.entry, cs.input)
-		ref[i], _ = digestOf(cs.entry, cs.input)
+		ref[i], _ = digestSeq(cs.entry, cs.input)
 		c.Eval()
 		c.Distinct(cs.entry + "\x00" + cs.input)
 	}
@@ -256,10 +262,10 @@ func RunC18(c *Ctx) {
 		cs := cases[i]
 		if r.IntN(3) == 0 {
 			other := cases[r.IntN(len(cases))]
-			digestOf(other.entry, other.input)
+			digestSeq(other.entry, other.input)
 		}
 		c.Journal(cs.entry, cs.input)
-		d, _ := digestOf(cs.entry, cs.input)
+		d, _ := digestSeq(cs.entry, cs.input)
 		c.Eval()
 		if d != ref[i] {
 			c.Violate("c18:order-dependent", cs.entry, cs.input, "the result differs when the call is repeated after other calls (digest of tree+SQL+errors)")
@@ -275,7 +281,7 @@ func RunC18(c *Ctx) {
 			continue
 		}
 		c.Journal(cs.entry, cs.input)
-		p1 := ParseNoBudget(cs.entry, cs.input)
+		p1 := Parse(cs.entry, cs.input)
 		j := i
 		if r.IntN(2) == 0 {
 			j = r.IntN(len(cases))
@@ -283,7 +289,7 @@ func RunC18(c *Ctx) {
 		if cases[j].entry == "split" {
 			continue
 		}
-		p2 := ParseNoBudget(cases[j].entry, cases[j].input)
+		p2 := Parse(cases[j].entry, cases[j].input)
 		if p1.Panic != nil || p2.Panic != nil {
 			continue
 		}
@@ -311,7 +317,7 @@ func RunC18(c *Ctx) {
 				callSUT(func() { mutateTree(rt) })
 			}
 		}
-		d, _ := digestOf(cs.entry, cs.input)
+		d, _ := digestSeq(cs.entry, cs.input)
 		if d != ref[i] {
 			c.Violate("c18:result-affected-by-mutation", cs.entry, cs.input, "after mutating a previously returned tree the same call returns a different result")
 		}
